@@ -46,15 +46,39 @@ def ff(ph, i, j, b):
     return {'climb': 8 + 4 * i, 'cruise': 4 + 4 * i + 8 * j * b, 'descent': 4 + 4 * i}[ph]
 
 
-def rows_for(fls, a, b, phases=('climb', 'cruise', 'descent')):
+RESIDUAL_UNIT = 1e-7  # specs/perf/PerfTable.tla CruiseResidual
+
+
+def residual(i, cz):
+    return (4 if i % 2 == 0 else -4) if cz == 2 else 4 * cz
+
+
+def rows_for(fls, a, b, phases=('climb', 'cruise', 'descent'), cz=0):
     """Table rows [fl, tas, rocd, mass, fuel_flow] grouped by phase."""
     out = {}
     for ph in phases:
         r = []
         for i, fl in enumerate(fls):
             for j in ((0, 1, 2) if ph != 'descent' else (1,)):
-                r.append([float(fl), float(tas(ph, i)), float(rocd(ph, i, j, a)), MASSES[j], float(ff(ph, i, j, b))])
+                rc = float(rocd(ph, i, j, a)) + (residual(i, cz) * RESIDUAL_UNIT if ph == 'cruise' else 0.0)
+                r.append([float(fl), float(tas(ph, i)), rc, MASSES[j], float(ff(ph, i, j, b))])
         out[ph] = r
+    return out
+
+
+def listing(r, order):
+    """The rows of a table in one of the listing orders of the specification."""
+    asc = r['climb'] + r['cruise'] + r['descent']
+    if order == 'asc':
+        return asc
+    if order == 'rev':
+        return list(reversed(asc))
+    blocks = [sorted(r[ph], key=lambda x: (-x[0], x[3])) for ph in ('descent', 'cruise', 'climb')]
+    out = []
+    while any(blocks):
+        for b_ in blocks:
+            if b_:
+                out.append(b_.pop(0))
     return out
 
 
@@ -83,10 +107,10 @@ def eval_case(case):
 
         c, o = case['c'], case['o']
         fls = c['fls']
-        key = (tuple(fls), c['a'], c['b'])
+        key = (tuple(fls), c['a'], c['b'], c['cz'], c['ord'])
         if key not in _cache:
-            r = rows_for(fls, c['a'], c['b'])
-            _cache[key] = PerformanceModel.from_data(model_data(r['climb'] + r['cruise'] + r['descent']))
+            r = rows_for(fls, c['a'], c['b'], cz=c['cz'])
+            _cache[key] = PerformanceModel.from_data(model_data(listing(r, c['ord'])))
         pm = _cache[key]
         n = len(fls)
         h = c['fl2']
@@ -112,7 +136,7 @@ def eval_case(case):
         else:
             mass = (MASSES[m2 // 2] + MASSES[m2 // 2 + 1]) / 2
         rule = {'climb': SimpleFlightRules.CLIMB, 'cruise': SimpleFlightRules.CRUISE, 'descent': SimpleFlightRules.DESCEND}[c['ph']]
-        where = f'{c["ph"]} FL {fl} (given as {fl} x FL_TO_METERS m) mass {mass} in table FL {fls}'
+        where = f'{c["ph"]} FL {fl} (given as {fl} x FL_TO_METERS m) mass {mass} in table FL {fls} (rows listed {c["ord"]}, cruise ROCD residual {c["cz"]})'
         try:
             p = pm.evaluate(AircraftState(altitude=fl * FL_TO_METERS, aircraft_mass=mass, true_airspeed=200.0, rate_of_climb=0.0), rule)
             refused = False
@@ -129,8 +153,10 @@ def eval_case(case):
         devs = []
         for k, g in (('tas', p.true_airspeed), ('rocd', p.rate_of_climb), ('ff', p.fuel_flow)):
             w = float(fr(o[k]))
+            if k == 'rocd':
+                w += float(fr(o['res'])) * RESIDUAL_UNIT
             if abs(g - w) > 1e-9 * max(1.0, abs(w)):
-                devs.append((f'value:{k}:{"node" if node and (m2 in (0, 2, 4, 100, 101) or c["ph"] == "descent") else "between"}', f'{where}: {k} = {g!r}; specification: {w!r}'))
+                devs.append((f'value:{k}:{c["ph"]}:{"node" if node and (m2 in (0, 2, 4, 100, 101) or c["ph"] == "descent") else "between"}', f'{where}: {k} = {g!r}; specification: {w!r}'))
         return devs
     except Exception as e:
         import traceback
